@@ -19,8 +19,8 @@ ASSUMPTIONS = [
     'the recorded call tree is linearised into the executed gate sequence (thorough tier: the stand-in is bound to real OpenQL by compiling a fixed family and parsing the cQASM)',
     'waits with a fractional duration are truncated by the exporter; the duration is judged only when it is integral',
 ]
-KF_ORDER = 'known:blocks-before-kernel'
-KF_DUP = 'known:duplicate-kernel-name'
+KF_ORDER = 'blocks-before-kernel'   # was known finding F7a, repaired in /repo (2dfc51c)
+KF_DUP = 'duplicate-kernel-name'   # was known finding F7b, repaired in /repo (2dfc51c)
 
 
 @contextlib.contextmanager
@@ -190,6 +190,12 @@ class RealOpenQL(Family):
                     yield (b, ('sub', rep, (a,)))
         yield (('sub', 1, (small[0],)), ('sub', 1, (small[1],)))
         yield (('sub', 1, (small[0],)), ('sub', 1, (small[0],)))
+        # two nesting levels, nested counts, blocks of the same shape
+        for r1 in (1, 2, 3):
+            for r2 in (1, 2):
+                inner = ('sub', r2, (small[4],))
+                yield (small[0], ('sub', r1, (small[1], inner, small[0])), ('sub', r1, (small[1], inner, small[0])), small[1])
+                yield (('sub', r1, (inner,)), small[0], ('sub', r1, (inner, inner)))
 
     def cases(self, tier, shard):
         for i, p in enumerate(self.programs()):
